@@ -20,7 +20,7 @@ pub fn gen_case(rng: &mut Rng) -> Vec<String> {
             11 => if sizes[h] > 0 { format!("vset v{h} {} {}", rng.below(sizes[h] as u64), rng.below(100)) } else { format!("vsize v{h}") },
             12 => if sizes[h] > 0 { format!("vget v{h} {}", rng.below(sizes[h] as u64)) } else { format!("vsize v{h}") },
             13 => format!("veq v{h} v{g}"),
-            14 => format!("vslice v{h}"),
+            14 => if rng.chance(1, 2) { format!("vslice v{h}") } else { format!("vspan v{h}") },
             15 => if allow_pushself && sizes[h] > 0 { sizes[h] += 1; format!("{} v{h} {}", if rng.chance(1, 2) { "vpushself" } else { "vpushmove" }, rng.below(sizes[h] as u64 - 1)) } else { format!("vsize v{h}") },
             16 => format!("sset s{h} {}", if rng.chance(1, 5) { "\"\"".to_string() } else { format!("w{}", rng.below(1000)) }),
             17 => format!("scopy s{h} s{g}"),
